@@ -34,16 +34,17 @@ def main():
     r2 = "--round2" in sys.argv
     r3 = "--round3" in sys.argv
     r4 = "--round4" in sys.argv
-    src = f"/tmp/seed4/{prop}-out/{which}" if r4 else f"/tmp/seed3/{prop}-out/{which}" if r3 else (f"/tmp/seed2/{prop}-out/{which}" if r2 else f"/tmp/seed/{prop}-out/{which}")
-    sid = f"{prop}-{ {'A': 'G', 'B': 'H'}[which] }" if r4 else f"{prop}-{ {'A': 'E', 'B': 'F'}[which] }" if r3 else (f"{prop}-{ {'A': 'C', 'B': 'D'}[which] }" if r2 else f"{prop}-{which}")
+    r5 = "--round5" in sys.argv
+    src = f"/tmp/seed5/{prop}-out/{which}" if r5 else f"/tmp/seed4/{prop}-out/{which}" if r4 else f"/tmp/seed3/{prop}-out/{which}" if r3 else (f"/tmp/seed2/{prop}-out/{which}" if r2 else f"/tmp/seed/{prop}-out/{which}")
+    sid = f"{prop}-{ {'A': 'I', 'B': 'J'}[which] }" if r5 else f"{prop}-{ {'A': 'G', 'B': 'H'}[which] }" if r4 else f"{prop}-{ {'A': 'E', 'B': 'F'}[which] }" if r3 else (f"{prop}-{ {'A': 'C', 'B': 'D'}[which] }" if r2 else f"{prop}-{which}")
     wt = f"/tmp/seedv/{sid}"
     os.makedirs("/tmp/seedv", exist_ok=True)
     PRIV_TMP = f"/tmp/seedv/tmp-{sid}"
     shutil.rmtree(PRIV_TMP, ignore_errors=True)
     os.makedirs(PRIV_TMP, exist_ok=True)
     if os.path.exists(wt):
-        subprocess.run(["git", "-C", "/repo", "worktree", "remove", "--force", wt])
-    subprocess.check_call(["git", "-C", "/repo", "worktree", "add", "-q", "--detach", wt, "HEAD"])
+        subprocess.run(["flock", "/tmp/seedv/.gitlock", "git", "-C", "/repo", "worktree", "remove", "--force", wt])
+    subprocess.check_call(["flock", "/tmp/seedv/.gitlock", "git", "-C", "/repo", "worktree", "add", "-q", "--detach", wt, "HEAD"])
     meta = {"id": sid, "property": prop, "confirmed": False, "steps": {}}
     try:
         demo = open(f"{src}/demo.txt").read()
@@ -116,15 +117,16 @@ def main():
         vd = f"/tmp/seedv/{sid}-verif"
         os.makedirs(vd + "/evidence", exist_ok=True)
         shutil.copy("/verif/known_findings.txt", vd)
-        if os.path.exists("/verif/bin/scalint"):
-            rc, out = sh(f"/verif/bin/scalint -prop {prop} -tier quick -repo {wt} -verif {vd}", "/verif")
+        BIN = os.environ.get("SCALINT_BIN", "/verif/bin/scalint")
+        if os.path.exists(BIN):
+            rc, out = sh(f"{BIN} -prop {prop} -tier quick -repo {wt} -verif {vd}", "/verif")
             viol = [l for l in out.splitlines() if "VIOLATION" in l or "violated" in l or "UNDECIDED" in l]
             meta["check"] = {"cmd": f"scalint -prop {prop} -tier quick (against the patched worktree)", "rc": rc, "detected": rc == 1 and any("VIOLATION property=" + prop in l for l in out.splitlines()), "report": [l[:400] for l in viol[:6]]}
         shutil.rmtree(vd, ignore_errors=True)
     except SystemExit as e:
         meta["rejected"] = str(e)
     finally:
-        subprocess.run(["git", "-C", "/repo", "worktree", "remove", "--force", wt])
+        subprocess.run(["flock", "/tmp/seedv/.gitlock", "git", "-C", "/repo", "worktree", "remove", "--force", wt])
         shutil.rmtree(PRIV_TMP, ignore_errors=True)
     out = f"/verif/seeded/{sid}"
     if meta["confirmed"]:
